@@ -21,7 +21,7 @@ from ..partition import MiniInterp, Opaque, FRESH
 
 LEVEL = "other"
 TECHNIQUE = ("boolean-function comparison of guards by branch partition; producer/consumer vocabulary agreement; tuple-shape "
-             "agreement of sibling walkers; CFG pairing of the cursor stack")
+             "agreement of sibling walkers; CFG pairing of the cursor stack; source evaluation (sa/classeval.py) of text() and of the DOM walker's getNodeDetails on a minidom model; reaching definitions of the has-children flag")
 CLAIM = ('The void-element decision is one boolean function used consistently by the start side, the end side '
          'and the Lint filter (decided for every namespace class x name class); every token kind produced for '
          'parsed trees is understood by every consumer in the package; both walkers hand __iter__ tuples of '
@@ -29,7 +29,7 @@ CLAIM = ('The void-element decision is one boolean function used consistently by
          'pushed before every descent and popped exactly once per ascent. text() yields leading HTML white '
          'space, text, trailing HTML white space as non-empty tokens for every sequence of character classes '
          'up to length 4; the {namespace}local splitter ends the namespace at the first closing brace.'
-         ' An attribute key that reads as Clark notation comes out as a namespaced, possibly empty name (known finding, shared with C04).')
+         ' An attribute key that reads as Clark notation comes out as a namespaced, possibly empty name (known finding, shared with C04). text() and the DOM walker\'s getNodeDetails are run from their source (on sample strings, on a model of a minidom element): whatever their shape, the tokens are leading HTML white space / text / trailing HTML white space, and an attribute without namespace keeps its whole name. The has-children flag that reaches emptyTag is the node\'s own.')
 NOT_DECIDED = ("the traversal itself (index arithmetic, tail handling, balance of start/end tags), rebuild equality, equality "
                "of the etree and dom streams.")
 MODULES = ["treewalkers/base.py", "treewalkers/etree.py", "treewalkers/dom.py", "treewalkers/__init__.py", "filters/lint.py",
